@@ -7,8 +7,8 @@ TECH = 'bounded symbolic execution of the real code: clang-14 LLVM IR of the C++
 
 CLAIMS = {
     'C11': dict(cat='model_checking', ref='DESIGN.md §4 C11',
-                text='SAT decides, for ALL pairs of values of every fixed-width component type at full width (2^16..2^128 pairs per type), all text pairs up to the stated '
-                     'length over the full byte alphabet, pairs at the truncation boundary and two tuple schemas, that the byte order of the real encoder output equals the specified order. '
+                text='SAT decides, for ALL pairs of values of every fixed-width component type at full width (2^16..2^128 pairs per type), all text pairs up to 16 bytes (thorough: 64) '
+                     'over the full byte alphabet, pairs at the truncation boundary and two tuple schemas, that the byte order of the real encoder output equals the specified order. '
                      'Bounded for text length / tuple schema only; no sampling.',
                 note='trusted: clang front end + own IR-to-C lowering (validated on every run by executing solver-generated vectors through both the generated C and a g++ build of the real code), '
                      'CBMC float/bit-vector semantics; the truncation-boundary query uses the guarded hook that narrows the run-length type to 8 bits (maxlen 252).'),
